@@ -240,15 +240,15 @@ func ruleReaderOffsets(r *Report) {
 // parse error must travel in a module-defined error type that SeekNext recognises with errors.As.
 func ruleSeekTrial(r *Report) {
 	const rule = "seek-trial"
-	r.Rule(rule, 2, "the random-access reader wraps every failure of parsing a record header (v3, v4) in one module-defined error type, and SeekNext treats a trial read that failed with that type as \"no record starts here\" and keeps scanning; only file read failures abort the seek")
+	r.Rule(rule, 2, "the random-access reader wraps every failure of parsing a record header (v2, v3, v4 — every version SeekNext works on) in one module-defined error type, and SeekNext treats a trial read that failed with that type as \"no record starts here\" and keeps scanning; only file read failures abort the seek")
 	var marker types.Type
-	for _, k := range []string{"recordio.MMapReader.ReadNextAt", "recordio.readNextAtV3"} {
+	for _, k := range []string{"recordio.MMapReader.ReadNextAt", "recordio.readNextAtV3", "recordio.readNextAtV2"} {
 		fn := r.NeedFunc(rule, k)
 		if fn == nil {
 			continue
 		}
 		key := rule + "/" + k + "/header-failure-typed"
-		sites := CallsIn(fn, Keys("recordio.readRecordHeaderV4", "recordio.readRecordHeaderV3"))
+		sites := CallsIn(fn, Keys("recordio.readRecordHeaderV4", "recordio.readRecordHeaderV3", "recordio.readRecordHeaderV2"))
 		if len(sites) == 0 {
 			r.Missing(rule, key, "no record header parse in "+k)
 			continue
@@ -514,8 +514,31 @@ func ruleSkipReadSiblings(r *Report) {
 // (out of memory) — from a read.
 func ruleAllocBounded(r *Report) {
 	const rule = "alloc-bounded"
-	r.Rule(rule, 1, "in MMapReader.ReadNextAt (v4) every allocation that is sized from the parsed record header happens only after a successful comparison of those sizes with the size of the mapped file")
+	r.Rule(rule, 4, "in MMapReader.ReadNextAt (v4) every allocation that is sized from the parsed record header happens only after a successful comparison of those sizes with the size of the mapped file; the legacy random-access readers (v1, v2, v3) call the same check before they allocate")
 	p := r.P
+	// siblings: the three legacy readers allocate from header sizes as well (a v1 header is 20 raw bytes with two 64 bit
+	// sizes and no checksum at all: ReadNextAt at an offset that is not a record start takes whatever it finds for sizes)
+	{
+		o := &order{r, p}
+		for _, k := range []string{"recordio.readNextAtV1", "recordio.readNextAtV2", "recordio.readNextAtV3"} {
+			lf := r.NeedFunc(rule, k)
+			if lf == nil {
+				continue
+			}
+			lkey := rule + "/" + k + "/fits-before-alloc"
+			checks := CallsIn(lf, Keys("recordio.MMapReader.checkRecordFits"))
+			allocs := CallsIn(lf, Keys("recordio.allocateRecordBuffer", "recordio.allocateRecordBufferPooled"))
+			if len(allocs) == 0 {
+				r.Unk(rule, lkey, lf.Pos(), "no allocation from the header sizes found")
+				continue
+			}
+			if len(checks) == 0 {
+				r.Bad(rule, lkey, allocs[0].Pos(), "the payload buffer is allocated from the sizes in the record header before they were compared with the file: on a legal v1 file whose payload contains the v1 marker followed by ff bytes, ReadNextAt(31) panics (makeslice: len out of range) where the v2-v4 readers return an error")
+				continue
+			}
+			o.OnlyAfterSuccess(rule, lkey, lf, "checkRecordFits", checks, "the allocation", allocs, nil)
+		}
+	}
 	fn := r.NeedFunc(rule, "recordio.MMapReader.ReadNextAt")
 	if fn == nil {
 		return
@@ -702,4 +725,139 @@ func ruleHeaderSizesChecked(r *Report) {
 			r.OK(rule, key, fn.Pos(), fmt.Sprintf("expansion bound %d:1", bound))
 		}
 	}
+}
+
+// convertsEOF: sc maps io.EOF to io.ErrUnexpectedEOF (and passes everything else on).
+func convertsEOF(sc *ssa.Function) bool {
+	if sc == nil || len(sc.Blocks) == 0 || !inModule(sc) {
+		return false
+	}
+	for _, b := range liveBlocks(sc) {
+		if _, g, isS, _, ok := sentinelTest(b); ok && g == "io.EOF" && returnedSentinel(isS) == "io.ErrUnexpectedEOF" {
+			return true
+		}
+	}
+	return false
+}
+
+// R-torn-record-is-not-eof (C20, C12, C07, C13): io.EOF is what the readers' callers take for the regular end of the
+// records. Once the first byte of a record has been read, the end of the file is not that: a file that ends between two
+// header fields, or right behind a header whose payload is missing, holds a record that was cut off (a writer that was
+// killed, a flush that failed half way). Reported as a plain EOF the native reader sees a complete, shorter file — where
+// the schema reader fails, an index loader loads a shorter table, and a WAL file that is not the last one ends early
+// without an error.
+func ruleTornRecordIsNotEOF(r *Report) {
+	const rule = "torn-record-is-not-eof"
+	r.Rule(rule, 6, "in readRecordHeaderV4 every read behind the marker hands its error to a conversion that turns io.EOF into io.ErrUnexpectedEOF before it is returned, and FileReader.ReadNext does the same with the error of the payload read")
+	p := r.P
+	check := func(fn *ssa.Function, site Site, label string) {
+		key := uniqKey(r, rule+"/"+FuncKey(fn)+"/"+label)
+		r.Saw(fn)
+		c := site.Instr.(*ssa.Call)
+		var errv ssa.Value = c
+		if _, isT := c.Type().(*types.Tuple); isT {
+			errv = nil
+			for _, rf := range *c.Referrers() {
+				if ex, ok := rf.(*ssa.Extract); ok && isErrorType(ex.Type()) {
+					errv = ex
+				}
+			}
+		}
+		if errv == nil {
+			r.Unk(rule, key, site.Pos(), "the read's error result is not used")
+			return
+		}
+		// every return that carries this error carries it through a converter
+		raw := false
+		conv := false
+		car := errCarriers(fn, func(v ssa.Value) bool { return v == errv })
+		idx := errorResultIndex(fn)
+		for _, rs := range returnsOf(fn) {
+			ret := rs.Instr.(*ssa.Return)
+			if idx < 0 || idx >= len(ret.Results) {
+				continue
+			}
+			res := ret.Results[idx]
+			cands := []ssa.Value{res}
+			if k, vals := returnErrOperand(ret, idx); k == "val" {
+				cands = append(cands, vals...)
+			}
+			for _, cv := range cands {
+				if cv == errv || stripIface(cv) == errv {
+					raw = true
+				}
+				if !car[cv] && !car[stripIface(cv)] {
+					continue
+				}
+				// carried: is there a converter between the read and the return?
+				through := valueDependsOn(cv, func(x ssa.Value) bool {
+					cl, isC := x.(*ssa.Call)
+					if !isC || !convertsEOF(cl.Call.StaticCallee()) {
+						return false
+					}
+					for _, a := range cl.Call.Args {
+						if a == errv || car[a] {
+							return true
+						}
+					}
+					return false
+				})
+				if through {
+					conv = true
+				} else if cv != errv {
+					// wrapped without conversion (fmt.Errorf("%w", err))
+					raw = true
+				}
+			}
+		}
+		// errors turned into something else by a call (fmt.Errorf) are carriers as well: look at calls that take the raw error
+		eachInstr(fn, func(s Site) {
+			cl, ok := s.Instr.(*ssa.Call)
+			if !ok {
+				return
+			}
+			if convertsEOF(cl.Call.StaticCallee()) {
+				for _, a := range cl.Call.Args {
+					if a == errv {
+						conv = true
+					}
+				}
+			}
+		})
+		if conv && !raw {
+			r.OK(rule, key, site.Pos(), "a file that ends here is reported as io.ErrUnexpectedEOF")
+		} else {
+			r.Bad(rule, key, site.Pos(), "the end of the file behind the first byte of a record is passed on as io.EOF, the readers' signal for a regular end: a writer killed behind the length fields of its third record leaves a 40 byte file that the native reader reads as two records and a clean end, while the schema reader fails on it; an index cut there loads as a shorter table; a WAL file that is not the newest ends early without an error")
+		}
+	}
+	if fn := r.NeedFunc(rule, "recordio.readRecordHeaderV4"); fn != nil {
+		// the marker comparison: first If on the result of the first varint read
+		var reads []Site
+		eachInstr(fn, func(s Site) {
+			if c, ok := s.Instr.(*ssa.Call); ok {
+				ck := CalleeKey(c)
+				if ck == "encoding/binary.ReadUvarint" || strings.HasSuffix(ck, ".ReadByte") || strings.HasSuffix(ck, "checksumByteReader.Checksum") {
+					reads = append(reads, s)
+				}
+			}
+		})
+		if len(reads) < 2 {
+			r.Missing(rule, rule+"/recordio.readRecordHeaderV4/reads", "the header reads were not recognised")
+		}
+		for i, rd := range reads {
+			if i == 0 {
+				continue // the marker itself: the end of the file in front of it is the regular end
+			}
+			check(fn, rd, "field")
+		}
+	}
+	if fn := r.NeedFunc(rule, "recordio.FileReader.ReadNext"); fn != nil {
+		hdr := CallsIn(fn, Keys("recordio.readRecordHeaderV4"))
+		for _, s := range CallsIn(fn, Keys("io.ReadFull")) {
+			if len(hdr) > 0 && reachableFromSite(hdr[0], s) {
+				check(fn, s, "payload")
+			}
+		}
+	}
+	_ = p
 }
